@@ -6,7 +6,8 @@
    must have exactly the bytes of the recorded version, or be reported (status:unrecoverable / unrecoverable: tag and a
    failing exit status); files not selected and unknown paths must be byte identical to before.
 
-   The three known findings (DESIGN.md section 5) are replayed first from corpus/C05/.  A wrong file produced by a
+   The known findings (DESIGN.md section 5: b, c; d found by this check; a was repaired in /repo and is kept as a regression
+   case: its signature is no longer tolerated) are replayed first from corpus/C05/.  A wrong file produced by a
    generated history is attributed to one of them only when the independent diagnosis shows that the hypothesis of
    `fix_never_wrong_partial` fails in exactly that finding's way (past hash of a CHG block that is not the hash of what
    the parity encodes: a; compared over another length than it was taken over: b; ZERO although the parity encodes
@@ -18,7 +19,7 @@ from arraylib import *
 from c01_lib import *
 import c01_model
 
-KEY_A = 'F-C05a-chg-hash-skipped-stripe'
+KEY_A = 'F-C05a-chg-hash-skipped-stripe'      # repaired in /repo (0d034b0): listed `fixed`, suppresses nothing -> a plain VIOLATION
 KEY_B = 'F-C05b-past-hash-length'
 KEY_C = 'F-C05c-all-deleted-stripe-zero-hash'
 KEY_D = 'F-C05d-reduced-hash-markers-ignored'    # found by this check (listed in known_findings.json)
